@@ -209,6 +209,9 @@ func cmdCheck(args []string) int {
 		timeout = 60
 		requireAll = true
 	}
+	if id == "C19" && *tier == "quick" {
+		timeout = 3 // safety obligations that are provable at all are discharged in well under a second
+	}
 	dischargeAll(all, filepath.Join(outDir, "smt"), timeout, requireAll, 10)
 	tSolve := time.Since(t0).Seconds()
 
@@ -224,6 +227,9 @@ func cmdCheck(args []string) int {
 	var knownMatched []map[string]any
 	exit := 0
 	seenNames := map[string]bool{}
+	sweepFailNow := map[string][]*Obligation{}
+	sweepBase, sweepBaseNames := loadSweepBaseline(filepath.Join(*vdir, "baseline", id+".json"), known, id)
+	sweepUndecided := 0
 	for _, ob := range all {
 		seenNames[ob.Name] = true
 		r := ob.Result
@@ -242,8 +248,13 @@ func cmdCheck(args []string) int {
 			}
 			continue
 		}
-		if id == "C19" && ob.Kind != "safe" && ob.Kind != "in-subset" && ob.Kind != "contract-target-present" && ob.Kind != "contract-typechecks" && ob.Kind != "pre" {
-			// the sweep only counts safety obligations
+		if id == "C19" && ob.Kind != "safe" && ob.Kind != "in-subset" {
+			continue // the sweep only decides safety obligations; contract obligations belong to the other properties
+		}
+		if id == "C19" && ob.Kind == "in-subset" && r.Status != "unsat" {
+			k := ob.Func + "|in-subset"
+			sweepFailNow[k] = append(sweepFailNow[k], ob)
+			continue
 		}
 		if r.Status == "unsat" {
 			nObl++
@@ -264,8 +275,11 @@ func cmdCheck(args []string) int {
 			fmt.Printf("KNOWN-FINDING: property=%s %s: %s\n", id, ob.Name, kf.Description)
 			continue
 		}
-		if id == "C19" && ob.Kind == "safe" && base != nil && !base[baseKey(ob.Name)] && r.Status != "sat" {
-			// a sweep obligation that was never discharged on the pinned tree and has no model: undecided, not a violation
+		if id == "C19" && ob.Kind == "safe" {
+			// zero-annotation sweep: an undischarged safety obligation is a violation only if the function now has more
+			// undischarged obligations of that kind than on the pinned tree (baseline), see below
+			k := ob.Func + "|" + safeKind(ob.Name)
+			sweepFailNow[k] = append(sweepFailNow[k], ob)
 			continue
 		}
 		nObl++
@@ -281,6 +295,38 @@ func cmdCheck(args []string) int {
 		fmt.Printf("VIOLATION property=%s replay=%s%s\n", id, replayPath(outDir, ob), suffix)
 		fmt.Printf("  failed obligation: %s (%s) at %s\n    %s\n", ob.Name, why, ob.Pos, ob.Goal)
 		exit = 1
+	}
+	if id == "C19" {
+		undecided := 0
+		for k, obs := range sweepFailNow {
+			allowed := sweepBase[k]
+			if len(obs) <= allowed {
+				undecided += len(obs)
+				continue
+			}
+			// more undischarged obligations than on the pinned tree: report those not known from the baseline by name
+			extra := len(obs) - allowed
+			sort.Slice(obs, func(i, j int) bool { return obs[i].Name < obs[j].Name })
+			var fresh []*Obligation
+			for _, ob := range obs {
+				if !sweepBaseNames[ob.Name] {
+					fresh = append(fresh, ob)
+				}
+			}
+			for len(fresh) < extra {
+				fresh = append(fresh, obs[len(obs)-1-len(fresh)])
+			}
+			for _, ob := range fresh[:extra] {
+				nObl++
+				violations = append(violations, ob.Name)
+				writeReplay(outDir, id, ob, ob.Result.Status)
+				fmt.Printf("VIOLATION property=%s replay=%s no-failing-input-found\n", id, replayPath(outDir, ob))
+				fmt.Printf("  failed obligation: %s (%s) at %s\n    %s (not discharged; the pinned tree has %d undischarged %s obligations in this function, now %d)\n", ob.Name, ob.Result.Status, ob.Pos, ob.Goal, allowed, safeKind(ob.Name), len(obs))
+				exit = 1
+			}
+			undecided += allowed
+		}
+		sweepUndecided = undecided
 	}
 	// disappearing obligations (vacuity by deletion)
 	if base != nil && *only == "" {
@@ -369,6 +415,7 @@ func cmdCheck(args []string) int {
 			"contract_mirror": contractSync,
 			"timing_s": map[string]float64{"load": tLoad, "vcgen": tGen - tLoad, "solve": tSolve - tGen},
 			"failed_obligations": violations,
+			"sweep_undecided_obligations": sweepUndecided,
 		},
 		"assumptions": append([]string{
 			"machine integers are mathematical integers with declared ranges (no wrap-around) except where a conversion narrows",
@@ -595,4 +642,55 @@ func containsStr(xs []string, x string) bool {
 		}
 	}
 	return false
+}
+
+// safeKind extracts "<kind>" of a sweep obligation name ".../safe/<kind>[~n]".
+func safeKind(name string) string {
+	i := strings.LastIndex(name, "/safe/")
+	if i < 0 {
+		if strings.HasSuffix(name, "/in-subset") {
+			return "in-subset"
+		}
+		return ""
+	}
+	k := name[i+6:]
+	if j := strings.Index(k, "~"); j >= 0 {
+		k = k[:j]
+	}
+	return k
+}
+
+// loadSweepBaseline: per function and kind, how many safety obligations are undischarged on the pinned tree
+// (obligations listed as known findings are not part of that allowance).
+func loadSweepBaseline(path string, known []KnownFinding, id string) (map[string]int, map[string]bool) {
+	out := map[string]int{}
+	names := map[string]bool{}
+	data, err := os.ReadFile(path)
+	if err != nil {
+		return out, names
+	}
+	var led map[string]map[string]any
+	if json.Unmarshal(data, &led) != nil {
+		return out, names
+	}
+	for name, v := range led {
+		if v["status"] == "unsat" {
+			continue
+		}
+		if strings.HasSuffix(name, "/in-subset") {
+			out[strings.TrimSuffix(name, "/in-subset")+"|in-subset"]++
+			names[name] = true
+			continue
+		}
+		if !strings.Contains(name, "/safe/") {
+			continue
+		}
+		if matchKnown(known, id, name) != nil {
+			continue
+		}
+		fn := name[:strings.LastIndex(name, "/safe/")]
+		out[fn+"|"+safeKind(name)]++
+		names[name] = true
+	}
+	return out, names
 }
